@@ -350,8 +350,43 @@ func (w *World) WithdrawTokens(a *Actor, recipient string, amt int64) PhaseResul
 		&bridgetypes.MsgWithdrawTokens{Creator: a.Addr.String(), Recipient: recipient, Amount: coin(amt)})
 }
 
+// claimInfo projects, for each (deposit id, index) of a claim, what the oracle store holds at that
+// position BEFORE the claim executes (inputs of the claim guard; decoded by the Go ABI library).
+func (w *World) claimInfo(ids, idx []uint64) []Rec {
+	var out []Rec
+	for i := range ids {
+		r := Rec{"id": int(ids[i]), "idx": int(0), "found": false}
+		if i < len(idx) {
+			r["idx"] = int(idx[i])
+			qid := utils.QueryIDFromData(BridgeQuery(true, ids[i]))
+			agg, ts, err := w.App.OracleKeeper.GetAggregateByIndex(w.Ctx, qid, idx[i])
+			if err == nil && agg != nil {
+				r["found"] = true
+				r["flag"] = agg.Flagged
+				r["ts"] = NumI64(ts.UnixMilli())
+				r["pow"] = NumU64(agg.ReporterPower)
+				r["val"] = agg.AggregateValue
+				dec := Rec{"ok": false}
+				if b, e := hex.DecodeString(agg.AggregateValue); e == nil {
+					if vals, e := (abi.Arguments{{Type: tAddress}, {Type: tString}, {Type: tUint256}, {Type: tUint256}}).Unpack(b); e == nil {
+						dec = Rec{"ok": true, "rcpt": w.Name(vals[1].(string)), "amount": NumBig(vals[2].(*big.Int)), "tip": NumBig(vals[3].(*big.Int))}
+						if _, e := sdk.AccAddressFromBech32(vals[1].(string)); e != nil {
+							dec["badrcpt"] = true
+						} else {
+							dec["badrcpt"] = false
+						}
+					}
+				}
+				r["dec"] = dec
+			}
+		}
+		out = append(out, r)
+	}
+	return out
+}
+
 func (w *World) ClaimDeposits(a *Actor, ids, idx []uint64) PhaseResult {
-	return w.do("ClaimDeposits", Rec{"who": a.Name, "ids": ids, "idx": idx},
+	return w.do("ClaimDeposits", Rec{"who": a.Name, "ids": ids, "idx": idx, "claims": w.claimInfo(ids, idx)},
 		&bridgetypes.MsgClaimDepositsRequest{Creator: a.Addr.String(), DepositIds: ids, Indices: idx})
 }
 
